@@ -129,6 +129,8 @@ class VecInterp(Interp):
         return v
 
     def rvalue(self, rv):
+        if rv["k"] == "agg" and rv.get("ak") == "closure":
+            return {"__closure": rv["closure"], "caps": [self.operand(o) for o in rv["ops"]]}
         if rv["k"] == "unop" and rv["op"] == "PtrMetadata":
             v = self.target(self.operand(rv["a"]))
             if isinstance(v, list):
@@ -248,6 +250,20 @@ class VecInterp(Interp):
                     return ("refval", v)
                 return ("refval", View(v, lo, hi))
             raise Undecidable("index with %r" % (r,))
+        if re.search(r"slice::<impl \[\w+\]>::(get|get_mut)$", c) and isinstance(a[0], list):
+            v, r = a[0], a[1]
+            if isinstance(r, int):
+                return some(("refcell", v, r)) if 0 <= r < len(v) else dict(NONE)
+            if isinstance(r, dict):
+                lo = r.get("start", 0)
+                hi = r.get("end", len(v))
+                if not (isinstance(lo, int) and isinstance(hi, int)):
+                    raise Undecidable("symbolic range")
+                return some(("refval", View(v, lo, hi))) if 0 <= lo <= hi <= len(v) else dict(NONE)
+        if re.search(r"Option::<T>::(ok_or_else|ok_or)$", c) and isinstance(a[0], dict) and a[0].get("__adt") == "core::option::Option":
+            if a[0].get("__var") == "Some":
+                return {"__adt": "core::result::Result", "__var": "Ok", 0: a[0].get(0), "0": a[0].get(0)}
+            return {"__adt": "core::result::Result", "__var": "Err", 0: "error value", "0": "error value"}
         if re.search(r"slice::<impl \[\w+\]>::iter$", c):
             return {"__iter": a[0], "pos": 0}
         if re.search(r"slice::<impl \[\w+\]>::iter_mut$", c):
